@@ -93,6 +93,13 @@ class VFS:
                 del n[q]
             n[p] = {"kind": kind, "ino": self.next_ino, "dev": 7, "mtime": 1000.0, "size": 0}
             self.next_ino += 1
+        elif k == "recycle":  # an entry is removed and its inode number goes to a new entry of the OTHER kind (ext4 does that at once)
+            _, old, new = op
+            if old not in n or old == ROOT or new in n or self.children(old) or new.startswith(old + "/") or n.get(os.path.dirname(new), {}).get("kind") != "d" or n[old]["dev"] != 7:
+                return False
+            ent = n.pop(old)
+            kind = "d" if ent["kind"] == "f" else "f"
+            n[new] = {"kind": kind, "ino": ent["ino"], "dev": ent["dev"], "mtime": ent["mtime"] + 2.0, "size": 3 if kind == "f" else 0}
         elif k == "rmroot":
             for q in list(n):
                 del n[q]
@@ -184,7 +191,7 @@ def ref_diff(prev, cur):
     for p, v in prev.items():
         ident = (v[0], v[1])
         isd = v[2] == "d"
-        if ident in cino:
+        if ident in cino and cur[cino[ident]][2] == v[2]:  # a rename cannot change the kind: a re-used inode number of the other kind is no move
             q = cino[ident]
             w = cur[q]
             changed = (v[3], v[4]) != (w[3], w[4])
@@ -197,7 +204,7 @@ def ref_diff(prev, cur):
         else:
             ev.append(("deleted", isd, p, ""))
     for q, w in cur.items():
-        if (w[0], w[1]) not in pino:
+        if (w[0], w[1]) not in pino or prev[pino[(w[0], w[1])]][2] != w[2]:
             ev.append(("created", w[2] == "d", q, ""))
     return ev
 
@@ -237,6 +244,8 @@ class C10(Scenario):
             dirs = [p for p, n in v.nodes.items() if n["kind"] == "d" and p.count("/") < 5]
             ents = [p for p in v.nodes if p != ROOT]
             r = rng.random()
+            if not racing and ents and rng.random() < 0.04:
+                return ["recycle", rng.choice(ents), rng.choice(dirs) + "/" + rng.choice(names)]
             if r < 0.04 and ents:
                 return ["create_twin", rng.choice(dirs) + "/" + rng.choice(names), rng.choice("fd"), rng.choice(ents)]
             if r < 0.35 or not ents:
